@@ -1,14 +1,23 @@
 """C09 — forwarded headers from untrusted peers never influence a decision.
 
 Steps of a run
- 1. regenerate lean/HeimdallModel/Gen/ReqView.lean from the current sources (extract/reqview, go/ast, fails closed);
- 2. lake build Props/C09.lean (theorems + `decide` obligations over the regenerated tables) and axiom audit;
- 3. build the overlay harness (real decision / proxy services, real rules and mechanisms, real upstream);
- 4. correspondence: corpus, cases aimed at every header name the source mentions, (thorough) every subset of the
-    family, seeded random requests in-process and over real TCP connections from loopback source addresses, and a
-    high-volume stream on the trust decision alone; implementation and Lean model must agree on status, matched rule,
-    request view, headers shown to mechanisms and forwarded headers received by the upstream;
- 5. a disagreement is shrunk and reported with the aspect of the property it breaks.
+ 1. build the overlay harness (real decision / proxy services, real rules and mechanisms, real upstream);
+ 2. facts about the current code, written to lean/HeimdallModel/Gen/ReqView.lean:
+    * MEASURED on the running services (so that code motion, helpers, constants, inverted conditions or slices helpers
+      cannot break the tie): which header names are deleted for an unlisted peer (each candidate alone and all
+      together, both services) and which names influence the request view / the forwarded headers sent upstream for a
+      listed peer (each candidate alone with every kind of value, both services);
+    * a shape-independent syntactic inventory (extract/reqview, go/ast with constants resolved): every string that
+      looks like a forwarding header name and every such name a header map is asked for — these are also the
+      candidates of the measurement;
+ 3. lake build Props/C09.lean (theorems + `decide` obligations over these tables) and axiom audit;
+ 4. correspondence: corpus, cases aimed at every candidate name, (thorough) every subset of the family, seeded random
+    requests in-process and over real TCP connections from loopback source addresses, listed and unlisted peers served
+    IN PARALLEL by one service instance (4+4 goroutines), and a high-volume stream on the trust decision alone;
+    implementation and Lean model must agree on status, matched rule, request view, headers shown to mechanisms and
+    forwarded headers received by the upstream;
+ 5. a disagreement is shrunk — to a single request, or, if it only shows after earlier requests, to a short request
+    sequence replayed in a fresh process — and reported with the aspect of the property it breaks.
 """
 import copy
 import itertools
@@ -26,30 +35,105 @@ EXTRACTOR = os.path.join(vlib.VERIF, "extract", "reqview")
 
 
 # ---------------------------------------------------------------------------------------------------------------
-# regenerated facts
+# facts about the current code
 
-def regenerate(R):
-    """-> (ok, tables | error text)"""
-    if os.path.exists(GEN_FILE):
-        os.remove(GEN_FILE)
+TABLES = ("stripDecision", "stripProxy", "readDecision", "readProxy", "mentioned", "astReads", "dynamicReaders",
+          "candidates")
+
+
+def ast_facts():
+    """-> (ok, {"mentioned", "astReads", "dynamicReaders"} | error text)"""
     p = subprocess.run(["go", "run", ".", vlib.REPO], cwd=EXTRACTOR, env=vlib.go_env(), capture_output=True,
                        text=True, timeout=600)
     if p.returncode != 0:
-        # keep the Lean project well-formed: an empty table file makes every obligation about it fail
-        with open(GEN_FILE, "w") as fh:
-            fh.write("/-! extraction FAILED (fail closed): " + p.stderr.strip().replace("-/", "- /")[:400] + " -/\n"
-                     "namespace Heimdall.Gen.ReqView\n"
-                     + "".join(f"def {n} : List String := []\n" for n in
-                               ("stripSet", "readSet", "mentioned", "dynamicReaders", "outDel", "outSet",
-                                "chainDecision", "chainProxy"))
-                     + "end Heimdall.Gen.ReqView\n")
         return False, (p.stderr or p.stdout)[-2000:]
-    with open(GEN_FILE, "w") as fh:
-        fh.write(p.stdout)
+    try:
+        return True, json.loads(p.stdout)
+    except Exception:
+        return False, p.stdout[-2000:]
+
+
+PROBE_VALUES = ["DELETE", "https", "probe.example.com", "/x/probe?p=1", "198.51.100.99",
+                "for=198.51.100.99;proto=https;host=probe.example.com"]
+UNLISTED = (["192.0.2.0/24"], "203.0.113.7:4711")
+LISTED = (["203.0.113.0/24"], "203.0.113.7:4711")
+
+
+def harmless_value(name):
+    return "/x/probe" if re.search(r"uri|url|path", name, re.I) else "GET"
+
+
+def measure_facts(exe, setup, candidates):
+    """run the real services: -> tables stripDecision/stripProxy/readDecision/readProxy (sorted name lists)"""
+    probes = []     # (kind, mode, name | None, case)
+    for mode in ("decision", "proxy"):
+        for n in candidates:
+            probes.append(("strip1", mode, n, base_case(mode, *UNLISTED, [[n, harmless_value(n)]])))
+        probes.append(("stripall", mode, None,
+                       base_case(mode, *UNLISTED, [[n, harmless_value(n)] for n in candidates])))
+        probes.append(("base", mode, None, base_case(mode, *LISTED, [])))
+        for n in candidates:
+            for v in PROBE_VALUES:
+                probes.append(("read", mode, n, base_case(mode, *LISTED, [[n, v]])))
+    out = vlib.run_cases([exe], [setup] + [p[3] for p in probes], timeout=600)[1:]
+
+    def shown(o):
+        return {k for k, _ in o.get("hdrs", [])} if isinstance(o, dict) and o.get("status") == 200 else None
+
+    def observable(o):
+        if not isinstance(o, dict):
+            return "?"
+        up = o.get("up") or {}
+        return vlib.canon([o.get("status"), o.get("rule"), o.get("view"), up.get("method"), up.get("uri"), up.get("fwd")])
+
     tables = {}
-    for m in re.finditer(r"^def (\w+) : List String := (\[.*\])$", p.stdout, re.M):
-        tables[m.group(1)] = json.loads(m.group(2))
-    return True, tables
+    for mode, tag in (("decision", "Decision"), ("proxy", "Proxy")):
+        all_shown = None
+        kept, read = set(), set()
+        base = None
+        for (kind, m, n, _), o in zip(probes, out):
+            if m != mode:
+                continue
+            if kind == "strip1":
+                sh = shown(o)
+                if sh is None or n in sh:
+                    kept.add(n)
+            elif kind == "stripall":
+                all_shown = shown(o)
+            elif kind == "base":
+                base = observable(o)
+            elif kind == "read" and observable(o) != base:
+                read.add(n)
+        for n in candidates:
+            if all_shown is None or n in all_shown:
+                kept.add(n)
+        tables["strip" + tag] = sorted(set(candidates) - kept)
+        tables["read" + tag] = sorted(read)
+    return tables, [p[3] for p in probes]
+
+
+def write_gen(tables, note=""):
+    with open(GEN_FILE, "w") as fh:
+        fh.write("/-! GENERATED by tools/props/c09.py on every check run from the current heimdall sources "
+                 "(measured on the running services + extract/reqview) — do not edit. " + note.replace("-/", "- /") + " -/\n"
+                 "namespace Heimdall.Gen.ReqView\n\n"
+                 "/-- names deleted for an unlisted peer, measured through the decision service -/\n"
+                 f"def stripDecision : List String := {json.dumps(tables.get('stripDecision', []))}\n"
+                 "/-- … through the proxy service -/\n"
+                 f"def stripProxy : List String := {json.dumps(tables.get('stripProxy', []))}\n"
+                 "/-- names that change the request view for a listed peer, measured through the decision service -/\n"
+                 f"def readDecision : List String := {json.dumps(tables.get('readDecision', []))}\n"
+                 "/-- names that change the view or the forwarded headers sent upstream, through the proxy service -/\n"
+                 f"def readProxy : List String := {json.dumps(tables.get('readProxy', []))}\n"
+                 "/-- every string literal / constant of the packages that looks like a forwarding header name -/\n"
+                 f"def mentioned : List String := {json.dumps(tables.get('mentioned', []))}\n"
+                 "/-- every such name a header map is asked for (literal or package constant) -/\n"
+                 f"def astReads : List String := {json.dumps(tables.get('astReads', []))}\n"
+                 "/-- functions asking a request header map for a computed name (informational) -/\n"
+                 f"def dynamicReaders : List String := {json.dumps(tables.get('dynamicReaders', []))}\n"
+                 "/-- the names whose influence was measured (informational) -/\n"
+                 f"def candidates : List String := {json.dumps(tables.get('candidates', []))}\n"
+                 "\nend Heimdall.Gen.ReqView\n")
 
 
 # ---------------------------------------------------------------------------------------------------------------
@@ -65,11 +149,30 @@ def base_case(mode, trusted, remote, headers, method="GET", path="/x/public", qu
             "headers": headers}
 
 
-def targeted_cases(tables):
-    """requests built around every header name the source mentions (and the near misses of the generator): one name at
-    a time with every kind of value an attacker would try, from an unlisted and from a listed peer, both services"""
-    names = sorted(set(tables.get("readSet", [])) | set(tables.get("mentioned", [])) | set(tables.get("stripSet", []))
-                   | set(gen_fwd.FAMILY) | set(gen_fwd.NEAR_MISS))
+def canon_key(name):
+    """textproto.CanonicalMIMEHeaderKey for token names"""
+    out, up = [], True
+    for ch in name:
+        out.append(ch.upper() if up else ch.lower())
+        up = ch == "-"
+    return "".join(out)
+
+
+def candidate_names(ast):
+    return sorted({canon_key(n) for n in set(ast.get("mentioned", [])) | set(ast.get("astReads", []))
+                   | set(gen_fwd.FAMILY) | set(gen_fwd.NEAR_MISS)})
+
+
+def comparable(case):
+    """fact probes that the model can follow (a listed peer announcing something that is not a method token makes the
+    proxy answer 502 before anything can be observed)"""
+    return not (case["mode"] == "proxy" and case["trusted"] == LISTED[0] and
+                any(k.lower() == "x-forwarded-method" and not re.fullmatch(r"[A-Za-z]+", v) for k, v in case["headers"]))
+
+
+def targeted_cases(names):
+    """requests built around every candidate header name: one name at a time with every kind of value an attacker
+    would try, from an unlisted and from a listed peer, both services"""
     cases = []
     for name in names:
         for val in ATTACK.values():
@@ -82,6 +185,54 @@ def targeted_cases(tables):
                         # (a listed peer announcing something that is not a method token makes the proxy fail with 502)
                         cases.append(base_case(mode, ["203.0.113.0/24"], "203.0.113.7:4711", [[spelled, val]]))
     return cases
+
+
+def parallel_cases(rng, n, rounds):
+    """one service instance, 4 goroutines of a listed peer and 4 of an unlisted one, all carrying forwarded headers"""
+    cases = []
+    for k in range(n):
+        mode = "decision" if k % 4 != 3 else "proxy"
+        listed = "10.%d.%d.%d" % (rng.randrange(256), rng.randrange(256), rng.randrange(1, 255))
+        other = "172.%d.%d.%d" % (16 + rng.randrange(16), rng.randrange(256), rng.randrange(1, 255))
+        trusted = [listed] if k % 2 == 0 else [listed + "/31", "not-an-ip"]
+        workers = []
+        for w in range(8):
+            ip = listed if w % 2 == 0 else other
+            c = base_case(mode, trusted, "%s:%d" % (ip, 1024 + w), gen_fwd.headers_of(rng), path="/m/par/%d" % w,
+                          query="w=%d" % w)
+            if not any(h[0].lower() in ("forwarded", "x-forwarded-for", "x-forwarded-host", "x-forwarded-proto") for h in c["headers"]):
+                c["headers"].append(["X-Forwarded-Host", "trusted.example.com"])
+            # keep the proxy happy: a listed peer must announce a method token
+            c["headers"] = [h for h in c["headers"] if h[0].lower() != "x-forwarded-method"] + [["X-Forwarded-Method", "DELETE"]]
+            workers.append(c)
+        cases.append({"fam": "fwd", "op": "par", "mode": mode, "trusted": trusted, "rounds": rounds if mode == "decision" else rounds // 4,
+                      "workers": workers})
+    return cases
+
+
+def pair_sequences():
+    """an unlisted peer sending one family header, then another one: every ordered pair, in one process"""
+    vals = {"Forwarded": "for=10.9.8.7;proto=https", "X-Forwarded-For": "10.9.8.7", "X-Forwarded-Proto": "https",
+            "X-Forwarded-Host": "trusted.example.com", "X-Forwarded-Uri": "/admin/zz", "X-Forwarded-Path": "/admin/x",
+            "X-Forwarded-Method": "DELETE"}
+    cases = []
+    for a in gen_fwd.FAMILY:
+        subs = [base_case("decision", [], "203.0.113.7:4711", [[a, vals[a]]], path="/h/seq")]
+        subs += [base_case("proxy" if i % 2 else "decision", [], "203.0.113.8:4711", [[b, vals[b]]], path="/m/seq")
+                 for i, b in enumerate(gen_fwd.FAMILY) if b != a]
+        cases.append({"fam": "fwd", "op": "seq", "cases": subs})
+    return cases
+
+
+def req_parts(case):
+    """the single requests a case consists of"""
+    if case.get("op") == "req":
+        return [case]
+    if case.get("op") == "seq":
+        return case["cases"]
+    if case.get("op") == "par":
+        return case["workers"]
+    return []
 
 
 def small_scope_cases():
@@ -102,14 +253,14 @@ def small_scope_cases():
 
 
 def fill_uri_tables(exe, cases, setup):
-    vals = sorted({v for c in cases if c.get("op") == "req" for v in gen_fwd.uri_values_of(c)})
+    parts = [p for c in cases for p in req_parts(c)]
+    vals = sorted({v for p in parts for v in gen_fwd.uri_values_of(p)})
     out = vlib.run_cases([exe], [setup, {"fam": "fwd", "op": "uri", "vals": vals}])
     if len(out) < 2 or not isinstance(out[1], list):
         raise RuntimeError("harness cannot evaluate net/url: " + json.dumps(out)[:500])
     tab = {row[0]: row for row in out[1]}
-    for c in cases:
-        if c.get("op") == "req":
-            c["uri_tab"] = [tab[v] for v in dict.fromkeys(gen_fwd.uri_values_of(c))]
+    for p in parts:
+        p["uri_tab"] = [tab[v] for v in dict.fromkeys(gen_fwd.uri_values_of(p))]
     return out[0]
 
 
@@ -124,9 +275,33 @@ def skipped(i):
     return isinstance(i, dict) and "skip" in i
 
 
+def who(case, m):
+    st = m.get("stats", {}) if isinstance(m, dict) else {}
+    listed = "listed (trusted)" if st.get("trusted") else "NOT listed in trusted_proxies"
+    return f"{case['mode']} service, peer {case['remote']!r} {listed} by {case.get('trusted')}: "
+
+
 def explain(case, i, m):
     """which part of the property a disagreement breaks"""
     m = vlib.res_of(m)
+    if case.get("op") == "seq" and isinstance(i, list) and isinstance(m, list):
+        for k, (sub, si, sm) in enumerate(zip(case["cases"], i, m)):
+            if vlib.canon(si) != vlib.canon(sm):
+                sub_m = vlib.run_cases(vlib.driver_cmd(), [sub])[0]
+                return (f"request {k + 1} of a sequence of {len(case['cases'])} requests in one process"
+                        + (" (it is answered correctly when sent first): " if k else ": ")
+                        + who(sub, sub_m) + explain(sub, si, sm))
+        return "sequence answers differ"
+    if case.get("op") == "par" and isinstance(i, list) and isinstance(m, list):
+        for k, (sub, si, sm) in enumerate(zip(case["workers"], i, m)):
+            for ans in (si if isinstance(si, list) else [si]):
+                if not sm or vlib.canon(ans) != vlib.canon(sm[0]):
+                    sub_m = vlib.run_cases(vlib.driver_cmd(), [sub])[0]
+                    n = len(si) if isinstance(si, list) else 1
+                    return (f"{len(case['workers'])} peers served in parallel by one service instance, worker {k + 1} got "
+                            + (f"{n} different answers to the same request, one of them wrong: " if n > 1 else "a wrong answer: ")
+                            + who(sub, sub_m) + explain(sub, ans, sm[0] if sm else {}))
+        return "parallel answers differ"
     if not isinstance(i, dict) or not isinstance(m, dict):
         return "implementation and model give incomparable answers"
     if case.get("op") == "trust":
@@ -173,9 +348,18 @@ def rule_differs(i, m):
 def shrink(exe, setup, case, keep_rule_difference=False):
     def fails(c):
         i, m = run_pair(exe, setup, c)
+        if isinstance(i, dict) and ("harness_error" in i or "crash" in i):
+            return False        # the simplification made the case ill-formed
         return not skipped(i) and not agree(i, m) and (not keep_rule_difference or rule_differs(i, m))
 
     cur = copy.deepcopy(case)
+    if cur.get("op") == "seq":
+        subs = vlib.ddmin(cur["cases"], lambda ss: fails(dict(cur, cases=ss)))
+        if fails(dict(cur, cases=subs)):
+            cur["cases"] = subs
+        return cur["cases"][0] if len(cur["cases"]) == 1 else cur
+    if cur.get("op") == "par":
+        return cur
     if cur.get("op") == "req":
         if len(cur["headers"]) > 1:
             keep_conn = [h for h in cur["headers"] if h[0] == "Connection"] if cur.get("tcp_from") else []
@@ -201,6 +385,28 @@ def shrink(exe, setup, case, keep_rule_difference=False):
     return cur
 
 
+def sequence_for(exe, setup, stream, k, window=300):
+    """the request stream[k] is answered wrongly only after earlier requests: find a short sequence of earlier
+    requests + that request which shows it in a fresh process; None if there is none among the last `window`"""
+    target = stream[k]
+    before = [p for c in stream[:k] for p in req_parts(c) if c.get("op") in ("req", "seq") and not p.get("tcp_from")]
+    before = before[-window:]
+
+    def last_wrong(prefix):
+        c = {"fam": "fwd", "op": "seq", "cases": prefix + [target]}
+        i, m = run_pair(exe, setup, c)
+        m = vlib.res_of(m)
+        return isinstance(i, list) and isinstance(m, list) and len(i) == len(m) and len(i) > 0 and \
+            vlib.canon(i[-1]) != vlib.canon(m[-1])
+
+    if not last_wrong(before):
+        return None
+    prefix = vlib.ddmin(before, last_wrong) if len(before) > 1 else before
+    if not last_wrong(prefix):
+        prefix = before
+    return {"fam": "fwd", "op": "seq", "cases": prefix + [target]}
+
+
 def failed_theorems(log):
     """names of the theorems of Props/C09.lean in which the build log reports an error"""
     path = os.path.join(vlib.LEAN, "HeimdallModel", "Props", "C09.lean")
@@ -222,18 +428,11 @@ def failed_theorems(log):
 # ---------------------------------------------------------------------------------------------------------------
 
 def run(R):
-    gen_ok, tables = regenerate(R)
-    lean_ok = vlib.step_lean(R, PID)
-    if not lean_ok:
-        with vlib.LeanLock():
-            vlib.lake(["build", "driver"])
     exe = vlib.step_harness(R)
     if exe is None:
         R.violation("harness does not build against /repo (API used by the correspondence check changed)",
                     {"build_log": R.harness_log[-3000:]}, no_input=True)
-        return
-    if not os.path.exists(vlib.driver_cmd()[0]):
-        R.violation("Lean driver does not build", {"lean_log": R.lean["log"]}, no_input=True)
+        R.coverage.update({"obligations": 1, "discharged": 0, "checker_cmd": "lake build", "trusted_base": []})
         return
     setup = {"fam": "fwd", "op": "setup", "tmp": os.path.join(R.tmp, "fwd")}
     first = vlib.run_cases([exe], [setup])
@@ -241,6 +440,7 @@ def run(R):
     if not (isinstance(info, dict) and info.get("ok")):
         R.violation("decision/proxy service cannot be assembled from configuration and rule files",
                     {"setup": info}, no_input=True)
+        R.coverage.update({"obligations": 1, "discharged": 0, "checker_cmd": "lake build", "trusted_base": []})
         return
     if info.get("cfg_decision") != ["192.0.2.1", "198.51.100.0/24"] or \
             info.get("cfg_proxy") != ["2001:db8::/32", "not-an-ip"]:
@@ -249,21 +449,41 @@ def run(R):
                               "serve.proxy.trusted_proxies": ["2001:db8::/32", "not-an-ip"]},
                      "impl": info, "model": "lists as written"})
 
+    # facts about the current code: syntactic inventory + measurement on the running services
+    ast_ok, ast = ast_facts()
+    names = candidate_names(ast if ast_ok else {})
+    measured, probes = measure_facts(exe, setup, names)
+    tables = dict(measured, candidates=names, **(ast if ast_ok else {}))
+    if os.path.exists(GEN_FILE):
+        os.remove(GEN_FILE)
+    write_gen(tables, "" if ast_ok else "syntactic inventory FAILED: " + str(ast)[:300])
+
+    lean_ok = vlib.step_lean(R, PID)
+    if not lean_ok:
+        with vlib.LeanLock():
+            vlib.lake(["build", "driver"])
+    if not os.path.exists(vlib.driver_cmd()[0]):
+        R.violation("Lean driver does not build", {"lean_log": R.lean["log"]}, no_input=True)
+        return
+
     quick = R.tier == "quick"
     corpus = vlib.load_corpus(PID)
     n_req, n_tcp, n_trust = (6000, 300, 12000) if quick else (150000, 4800, 300000)
-    tgt = targeted_cases(tables if gen_ok else {})
+    n_par, rounds = (8, 1500) if quick else (48, 4000)
+    tgt = targeted_cases(names)
+    seqs = pair_sequences()
     block = 12      # requests per generated service instance
     rnd = [c for _ in range(n_req // block) for c in gen_fwd.gen_req_block(R.rng, block)]
     tcp = [c for _ in range(n_tcp // block) for c in
            gen_fwd.gen_req_block(R.rng, block, tcp=True, ipv6_ok=bool(info.get("ipv6")))]
     trust = [gen_fwd.gen_trust_case(R.rng) for _ in range(n_trust)]
     small = [] if quick else small_scope_cases()
-    cases = corpus + tgt + small + rnd + tcp + trust
+    par = parallel_cases(R.rng, n_par, rounds)
+    cases = corpus + seqs + [p for p in probes if comparable(p)] + tgt + small + rnd + tcp + par + trust
     fill_uri_tables(exe, cases, setup)
 
-    impl = vlib.run_cases([exe], [setup] + cases, timeout=1500)[1:]
-    model = vlib.run_cases(vlib.driver_cmd(), cases, timeout=1500)
+    impl = vlib.run_cases([exe], [setup] + cases, timeout=2400)[1:]
+    model = vlib.run_cases(vlib.driver_cmd(), cases, timeout=2400)
 
     bad = []
     nontriv = set()
@@ -271,11 +491,13 @@ def run(R):
             "listed_peer_with_family_headers": 0, "listed_peer_without": 0, "unlisted_peer_without": 0,
             "matched_rule_would_differ_if_headers_were_honoured_or_ignored": 0, "status_404": 0,
             "unparsable_peer_address": 0, "trust_true": 0, "trust_false": 0,
-            "trust_unpatched_code_would_differ": 0, "invalid_entries_seen": 0, "decision": 0, "proxy": 0}
+            "trust_unpatched_code_would_differ": 0, "invalid_entries_seen": 0, "decision": 0, "proxy": 0,
+            "sequence_cases": 0, "requests_in_sequences": 0, "parallel_cases": 0, "parallel_requests_served": 0,
+            "parallel_workers_listed": 0, "parallel_workers_unlisted": 0}
     overridden = {}
     fam_names = {}
     rules = {}
-    for c, i, m in zip(cases, impl, model):
+    for idx, (c, i, m) in enumerate(zip(cases, impl, model)):
         st = m.get("stats", {}) if isinstance(m, dict) else {}
         if c["op"] == "req":
             dist["req_cases"] += 1
@@ -298,6 +520,17 @@ def run(R):
             rules[st.get("rule", "?")] = rules.get(st.get("rule", "?"), 0) + 1
             if fam:
                 nontriv.add(vlib.case_hash({k: v for k, v in c.items() if k != "uri_tab"}))
+        elif c["op"] == "seq":
+            dist["sequence_cases"] += 1
+            dist["requests_in_sequences"] += len(c["cases"])
+            nontriv.add(vlib.case_hash([{k: v for k, v in p.items() if k != "uri_tab"} for p in c["cases"]]))
+        elif c["op"] == "par":
+            dist["parallel_cases"] += 1
+            dist["parallel_requests_served"] += c["rounds"] * len(c["workers"])
+            dist["parallel_workers_listed"] += st.get("listed_workers", 0)
+            dist["parallel_workers_unlisted"] += st.get("workers", 0) - st.get("listed_workers", 0)
+            if 0 < st.get("listed_workers", 0) < st.get("workers", 0):
+                nontriv.add(vlib.case_hash([{k: v for k, v in p.items() if k != "uri_tab"} for p in c["workers"]]))
         else:
             dist["trust_cases"] += 1
             dist["trust_true" if st.get("trusted") else "trust_false"] += 1
@@ -310,21 +543,26 @@ def run(R):
             dist["tcp_skipped"] += 1
             continue
         if not agree(i, m):
-            bad.append((c, i, m))
+            bad.append((idx, c, i, m))
 
     R.coverage.update({
         "evaluations": len(cases), "distinct_nontrivial": len(nontriv),
         "rule": "one HTTP request (raw bytes parsed by net/http; in-process with a chosen RemoteAddr, or over a real TCP "
                 "connection from a 127.x.y.z / ::1 source address) through the real decision or proxy service built for a "
                 "generated trusted_proxies list, compared with the Lean model on status, matched rule, request view, headers "
-                "shown to mechanisms and forwarded headers received by the real upstream; plus the trust decision of the "
-                "real middleware alone. Non-trivial = request with at least one header line of the forwarded family "
-                "(any spelling), resp. trust case with at least one valid entry; distinct by hash of the case",
+                "shown to mechanisms and forwarded headers received by the real upstream; request sequences in one process; "
+                "8 workers (listed and unlisted peers alternating) sending their request `rounds` times in parallel to one "
+                "service instance, every answer compared; plus the trust decision of the real middleware alone. Non-trivial = "
+                "request with at least one header line of the forwarded family (any spelling), sequence, parallel case with "
+                "listed and unlisted workers, resp. trust case with at least one valid entry; distinct by hash of the case",
         "distribution": dist, "view_components_overridden_by_listed_peers": overridden,
         "family_header_occurrences": fam_names, "matched_rules": rules,
         "corpus_cases": len(corpus), "targeted_cases": len(tgt), "small_scope_cases": len(small),
-        "generated_tables": tables if gen_ok else {"extraction_failed": str(tables)[:500]},
-        "samples": [{k: v for k, v in rnd[0].items()}, trust[0]],
+        "fact_probe_cases": len(probes),
+        "generated_tables": tables,
+        "samples": [{k: v for k, v in rnd[0].items()}, trust[0],
+                    {"op": "par", "rounds": par[0]["rounds"], "workers": [w["remote"] for w in par[0]["workers"]],
+                     "trusted": par[0]["trusted"]}],
         "exhaustive": False,
     })
     if small:
@@ -335,44 +573,63 @@ def run(R):
         "net/http's request reader (header canonicalisation, value trimming), httputil.ReverseProxy's removal of "
         "Forwarded/X-Forwarded-For/-Host/-Proto from the outgoing request and Go's net.ParseIP/ParseCIDR/SplitHostPort are "
         "re-modelled in Lean and validated by the correspondence run only",
+        "the tables the theorems are instantiated with (names deleted for unlisted peers, names influencing view / "
+        "upstream for listed peers) are measured on the running services for the candidate names only: every string of the "
+        "four packages that looks like a forwarding header, the family and 31 near-miss names; a header read under a name "
+        "computed at run time is outside the measurement (the functions doing so are listed in generated_tables)",
         "header values are ASCII; header names are valid tokens (others are rejected by net/http before any handler runs)",
         "URL.Path is not part of the model: the harness checks with the real net/url that it is the unescaped URL.RawPath",
         "the model skips trusted_proxies entries that are not IP addresses (fixes/C09-1.patch, in /repo as 7f0f8a0); on a "
         "tree without that fix the check reports the violation with a replay",
         "hop-by-hop header handling and pipeline headers of the proxy are outside this model (C15)",
+        "the parallel stream can only show an interference that the scheduler produces within the given rounds "
+        "(GOMAXPROCS >= 2); the sequential model is the reference for every single answer",
     ]
 
     seen = set()
-    for c, i, m in bad:
+    searched_sequence = False
+    found = []
+    for idx, c, i, m in bad:
         what = explain(c, i, m)
-        sig = re.sub(r"'[^']*'|\"[^\"]*\"|\[[^\]]*\]", "_", what)[:80]
+        sig = re.sub(r"'[^']*'|\"[^\"]*\"|\[[^\]]*\]|\d+", "_", what)[:80]
         if sig in seen or len(seen) >= 6:
             continue
         seen.add(sig)
         sc = shrink(exe, setup, c, keep_rule_difference=rule_differs(i, m))   # keep "another rule is matched" visible
         si, sm = run_pair(exe, setup, sc)
         alone = not skipped(si) and not agree(si, sm)
+        if not alone and c.get("op") == "par":
+            for _ in range(3):      # an interleaving is not guaranteed to repeat: try again with more rounds
+                sc = dict(c, rounds=c["rounds"] * 4)
+                si, sm = run_pair(exe, setup, sc)
+                alone = not agree(si, sm)
+                if alone:
+                    break
+        if not alone and c.get("op") == "req" and not searched_sequence:
+            # answered correctly when sent alone: look for the earlier requests of this run that make it go wrong
+            searched_sequence = True
+            seq = sequence_for(exe, setup, cases, idx)
+            if seq is not None:
+                sc = seq
+                si, sm = run_pair(exe, setup, sc)
+                alone = not agree(si, sm)
         if not alone:
-            # differs inside the stream only: the answer depends on earlier requests to the same service instance
             sc, si, sm = c, i, m
-        st = sm.get("stats", {}) if isinstance(sm, dict) else {}
-        if sc.get("op") == "req":
-            who = "listed (trusted)" if st.get("trusted") else "NOT listed in trusted_proxies"
-            what = f"{sc['mode']} service, peer {sc['remote']!r} {who} by {sc.get('trusted')}: " + explain(sc, si, sm)
-        else:
-            what = explain(sc, si, sm)
+        what = (who(sc, sm) if sc.get("op") == "req" else "") + explain(sc, si, sm)
         if not alone:
-            what += " [only within the request stream of this run, not when the request is sent alone]"
-        R.violation(what, {"case": sc, "impl": si, "model": vlib.res_of(sm), "kind": "impl-vs-model(=spec)",
-                           "disagreeing_cases_in_this_run": len(bad)}, no_input=not alone)
-    if not gen_ok:
-        R.violation("fact extractor does not recognise the source any more (fails closed): " + str(tables)[-300:],
-                    {"extractor": str(tables)}, no_input=not bad)
+            what += " [only within the request stream of this run, not when replayed alone]"
+        found.append((what, {"case": sc, "impl": si, "model": vlib.res_of(sm), "kind": "impl-vs-model(=spec)",
+                             "disagreeing_cases_in_this_run": len(bad)}, not alone))
+    for what, payload, no_input in sorted(found, key=lambda f: f[2]):      # replayable ones first
+        R.violation(what, payload, no_input=no_input)
+    if not ast_ok:
+        R.violation("syntactic inventory of forwarding header names failed (packages unreadable): " + str(ast)[-300:],
+                    {"extractor": str(ast)}, no_input=not bad)
     if not lean_ok:
-        R.violation("theorems / generated obligations of Props/C09.lean no longer check: "
+        R.violation("theorems / obligations over the measured tables of Props/C09.lean no longer check: "
                     + (", ".join(failed_theorems(R.lean["log"])) or "; ".join(R.lean["failed"]))[:600],
                     {"lean_log": R.lean["log"], "failed": R.lean["failed"], "theorems": R.lean.get("failed_theorems"),
-                     "generated_tables": tables if gen_ok else None}, no_input=not bad)
+                     "generated_tables": tables}, no_input=not bad)
 
 
 def replay(R, path):
@@ -384,7 +641,7 @@ def replay(R, path):
         R.violation("harness does not build", {"build_log": R.harness_log[-3000:]}, no_input=True)
         return
     setup = {"fam": "fwd", "op": "setup", "tmp": os.path.join(R.tmp, "fwd")}
-    if c.get("op") == "req":
+    if req_parts(c):
         fill_uri_tables(exe, [c], setup)
     i, m = run_pair(exe, setup, c)
     print("case :", json.dumps(c))
